@@ -195,7 +195,7 @@ def runNet (ws : List String) : String :=
     -- one connection accepted, then the kernel answers EMFILE to every further accept(): the loop makes
     -- one call, leaves, and the network thread is back at its look at the running flag
     let r := Mio.Accept.acceptLoop [.error, .error, .error, .error, .error, .error]
-    s!"stopped_in_time={r.ended && r.consumed == 1}"
+    s!"stopped_in_time={r.ended && r.consumed == 1} served={r.ended}"
   | "hist" :: toks => runNetHist toks
   | _ => "bad-case"
 
